@@ -2237,17 +2237,35 @@ static int add_mapping_entry(vnaproperty_yaml_t *vymlp, int t_map,
 }
 
 /*
- * _vnaproperty_yaml_import: import properties from the given YAML document
+ * yaml_ancestor_t: chain of collection nodes being imported, used to
+ *	detect YAML aliases that refer to one of their own ancestors
+ */
+typedef struct yaml_ancestor {
+    const yaml_node_t *ya_node;
+    const struct yaml_ancestor *ya_up;
+} yaml_ancestor_t;
+
+/*
+ * yaml_import: recursive part of _vnaproperty_yaml_import
  *   @vymlp:    common argument structure
  *   @rootptr:  address of property tree root
- *   @vp_node:  yaml node cast to void pointer
+ *   @node:     yaml node
+ *   @up:       enclosing collection nodes
  */
-int _vnaproperty_yaml_import(vnaproperty_yaml_t *vymlp,
-	vnaproperty_t **rootptr, void *vp_node)
+static int yaml_import(vnaproperty_yaml_t *vymlp,
+	vnaproperty_t **rootptr, yaml_node_t *node, const yaml_ancestor_t *up)
 {
     yaml_document_t *document = vymlp->vyml_document;
-    yaml_node_t *node = vp_node;
+    yaml_ancestor_t self = { node, up };
 
+    for (const yaml_ancestor_t *yap = up; yap != NULL; yap = yap->ya_up) {
+	if (yap->ya_node == node) {
+	    _vnaproperty_yaml_error(vymlp, VNAERR_SYNTAX,
+		    "%s (line %ld) error: alias refers to an enclosing node",
+		    vymlp->vyml_filename, node->start_mark.line + 1);
+	    goto out;
+	}
+    }
     switch (node->type) {
     case YAML_SCALAR_NODE:
 	/*
@@ -2305,7 +2323,7 @@ int _vnaproperty_yaml_import(vnaproperty_yaml_t *vymlp,
 			    vymlp->vyml_filename, strerror(errno));
 		    goto out;
 		}
-		if (_vnaproperty_yaml_import(vymlp, subtree, value) == -1) {
+		if (yaml_import(vymlp, subtree, value, &self) == -1) {
 		    goto out;
 		}
 	    }
@@ -2336,7 +2354,7 @@ int _vnaproperty_yaml_import(vnaproperty_yaml_t *vymlp,
 			    vymlp->vyml_filename, strerror(errno));
 		    goto out;
 		}
-		if (_vnaproperty_yaml_import(vymlp, subtree, value) == -1) {
+		if (yaml_import(vymlp, subtree, value, &self) == -1) {
 		    goto out;
 		}
 	    }
@@ -2349,6 +2367,18 @@ int _vnaproperty_yaml_import(vnaproperty_yaml_t *vymlp,
 
 out:
     return -1;
+}
+
+/*
+ * _vnaproperty_yaml_import: import properties from the given YAML document
+ *   @vymlp:    common argument structure
+ *   @rootptr:  address of property tree root
+ *   @vp_node:  yaml node cast to void pointer
+ */
+int _vnaproperty_yaml_import(vnaproperty_yaml_t *vymlp,
+	vnaproperty_t **rootptr, void *vp_node)
+{
+    return yaml_import(vymlp, rootptr, (yaml_node_t *)vp_node, NULL);
 }
 
 /*
